@@ -102,6 +102,12 @@ CHECKS = {
   design_ref="DESIGN.md §4 C20",
   note="Trusted: Lean kernel + standard axioms; py2lean read-set extraction (cross-checked by recorded attribute reads); injective canonical JSON + sha256; json round trip of dict[str,str].",
   technique="Lean 4 proof (state-machine invariant) over facts regenerated from source + differential correspondence"),
+ "C16": dict(
+  category="proof",
+  text="Lean 4 theorems over definitions REGENERATED from the shipped YAML and data/jobs/patch.py on every run: formula_mono (every one of the ~164 damage formulas in skill_level is non-decreasing over its reachable level range, by a kernel-checked checker with a generic soundness proof, so a new non-monotone formula breaks the build), formula_no_zero_division, hexa/v improvement monotone, skill_level_mono/explicit_zero for a hand model of SkillLevelPatch.get_skill_level, exclude_hexa_iff for the lower-tier exclusion rule. Building, unique names, the exclusion rule, no damage figure decreasing when one level is raised, and random plans running to completion are EXPLORED on the real code over the level grid (boundary grid quick, every axis value + joint sample thorough) for all jobs.",
+  design_ref="DESIGN.md §4 C16",
+  note="Proof for monotonicity and exclusion; exploration for 'builds and runs'. Trusted: Lean kernel + standard axioms; py2lean YAML-formula translator (self-checked against the real patch results); level maxima taken from the property statement.",
+  technique="Lean 4 proof over formulas regenerated from the YAML + level-grid exploration of builds"),
 }
 
 NOT_YET = "check not built yet in this round (work in progress; see DESIGN.md §6 build order)"
